@@ -18,14 +18,24 @@ def main():
     r = sh(["git", "-C", "/repo", "worktree", "add", "--detach", WT, "HEAD"])
     if r.returncode != 0:
         print(r.stdout); return 2
-    seeds = args or sorted(os.listdir(os.path.join(V, "seeded")))
-    env = dict(os.environ, VERIF_REPO=WT)
+    root = [a.split("=", 1)[1] for a in sys.argv[1:] if a.startswith("--root=")]
+    root = root[0] if root else None
+    if root:
+        import glob
+        allseeds = {os.path.relpath(d, root).replace("/out/", ""): d for d in glob.glob(root + "/C*/out/[a-e]")}
+        seeds = args or sorted(allseeds)
+    else:
+        seeds = args or sorted(os.listdir(os.path.join(V, "seeded")))
+    env = dict(os.environ, VERIF_REPO=WT, VERIF_OUT="/tmp/seedmatrix_out")
     res = {}
     claimed = {c["property_id"] for c in json.load(open(os.path.join(V, "MANIFEST.json")))["checks"]}
     try:
         for sid in seeds:
-            patch = os.path.join(V, "seeded", sid, "patch.diff")
-            meta = json.load(open(os.path.join(V, "seeded", sid, "meta.json")))
+            sdir = allseeds[sid] if root else os.path.join(V, "seeded", sid)
+            patch = os.path.join(sdir, "patch.diff")
+            if not (os.path.exists(patch) and os.path.exists(os.path.join(sdir, "meta.json"))):
+                continue
+            meta = json.load(open(os.path.join(sdir, "meta.json")))
             pid = meta["property"]
             r = sh(["git", "-C", WT, "apply", patch])
             if r.returncode != 0:
